@@ -350,6 +350,8 @@ def _job(job):
     except OSError:
         pass
     t0 = time.time()
+    import sys
+    sys.setrecursionlimit(60000)      # some repository models nest parentheses thousands of levels deep
     try:
         if job["kind"] == "model":
             nf, q, fails = check_translation(open(job["path"]).read(), os.path.basename(job["path"]))
@@ -376,16 +378,28 @@ def _job(job):
 
 def replay(rec):
     """failures of E-TV/E-LIFT are already statements about the real code's concrete output; re-run the job"""
+    if rec.get("mode") == "sym":
+        from checks import c10_sym
+        return c10_sym.replay(rec)
     r = _job(rec["job"])
     return {"reproduces": bool(r.get("fails")), "failing": r.get("fails", [])[:4], "signature": None}
 
 
+def run_task(task):
+    from checks import c10_sym
+    return c10_sym.run_task(task)
+
+
 def main(tier, seed, t0, selftest=False):
     os.makedirs(os.path.join(common.ROOT, "scratch"), exist_ok=True)
+    sym_tasks = [] if selftest else [
+        {"prop": PROP, "family": fam, "label": f"sym/{fam}", "timebox": box, "seed": seed, "params": {"mode": "sym"}}
+        for fam, box in (("U2", 40 if tier == "quick" else 600), ("D3", 40 if tier == "quick" else 900), ("S1C2", 30 if tier == "quick" else 600))]
+    sym_results = common.run_tasks(sym_tasks) if sym_tasks else []
     paths = sorted(glob.glob(os.path.join(MODELS, "*.bnet")), key=lambda p: os.path.getsize(p))
     q = tier == "quick"
     jobs = []
-    for p in (paths[:70] if q else paths):
+    for p in paths:      # all repository models in both tiers (a few seconds each at most)
         jobs.append({"kind": "model", "path": p})
     for k in (1, 2, 3):
         allbits = list(range(2 ** (2 ** k)))
@@ -397,13 +411,23 @@ def main(tier, seed, t0, selftest=False):
         jobs.append({"kind": "perc", "path": p, "max_nodes": 4 if q else 8})
     if selftest:
         jobs = jobs[:3]
-    jobs.sort(key=lambda j: 0 if j["kind"] == "restrict" else 1)
+    jobs.sort(key=lambda j: (0 if j["kind"] == "restrict" else 1, -os.path.getsize(j["path"]) if "path" in j else 0))
     ctx = mp.get_context("fork")
     with ctx.Pool(common.NCPU) as pool:
         results = list(pool.imap_unordered(_job, jobs, chunksize=1))
     fails = [(r["job"], f) for r in results for f in r.get("fails", [])]
     errors = [r for r in results if r.get("error")]
     violations = []
+    for r in sym_results:
+        for i in r.get("inconclusive", []):
+            errors.append({"job": r.get("label"), "error": "symbolic harness: " + str(i.get("reason")) + " " + str(i)[:300]})
+        for c in r.get("violations", [])[:2]:
+            rec = {"property": PROP, "mode": "sym", "rules": c["rules"], "hist": c.get("hist", {}), "params": {"mode": "sym"}}
+            v = common.replay_record(PROP, rec)
+            if v.get("reproduces") is True:
+                violations.append(v)
+            else:
+                errors.append({"job": r.get("label"), "error": "symbolic counterexample did not reproduce: " + str(v)[:300]})
     for job, f in fails[:3]:
         if job.get("kind") == "small":
             continue
@@ -420,12 +444,15 @@ def main(tier, seed, t0, selftest=False):
     cov = {"programs": sum(r["programs"] for r in results), "disagreements_checked": len(fails),
            "samples": [r["job"] for r in results[:4]],
            "functions_validated": sum(r["functions"] for r in results),
+           "symbolic_path_classes": sum(r.get("classes", 0) for r in sym_results),
+           "symbolic_families": {r.get("label"): {"classes": r.get("classes"), "exhausted": r.get("exhausted")} for r in sym_results},
            "queries": sum(r["queries"] for r in results),
            "functions_encoded": FUNCTIONS,
            "bounds": {"a": f"{len([j for j in jobs if j['kind'] == 'model'])} repository models (all update functions, all states via z3) + all {2 + 16 + 256} functions of <= 3 inputs",
                       "b": "generic net G_n, n in " + str([j["n"] for j in jobs if j["kind"] == "restrict"]) + ": all nets, all subspaces, all states; composition for all compatible pairs of subspaces",
                       "c": f"{len([j for j in jobs if j['kind'] == 'perc'])} repository models x node spaces of a size-limited expansion, remove_constants on/off",
-                      "outside": "symbolic-network claim for percolate_network (AEON inline_constants/infer_valid_graph are native): per model only"},
+                      "sym": "real network_to_petrinet + percolate_network on symbolic networks (U2 exhaustive, D3, S1C2) x symbolic subspace, results read back completely (checks/c10_sym.py); percolate_network statements for trap spaces only",
+                      "outside": "class-level generalisation for percolate_network beyond what was read back (AEON inline_constants/infer_valid_graph are native): per model only"},
            "exhaustive": False}
     ev = {"property_id": PROP, "tier": tier, "seed": seed, "level": "translation_validation", "coverage": cov,
           "assumptions": ["AEON's bnet parser and the independent parser agree on the function text (both read the same file)",
@@ -442,5 +469,5 @@ def main(tier, seed, t0, selftest=False):
     elif errors:
         print(f"INCONCLUSIVE property={PROP} reason=job error {errors[0]['job']}: {errors[0]['error'][:600]}")
         code = 3
-    print(f"{PROP} {tier}: programs={cov['programs']} functions={cov['functions_validated']} queries={cov['queries']} failures={len(fails)} wall={ev['wall_s']}s exit={code}")
+    print(f"{PROP} {tier}: symbolic classes={cov['symbolic_path_classes']}; programs={cov['programs']} functions={cov['functions_validated']} queries={cov['queries']} failures={len(fails)} wall={ev['wall_s']}s exit={code}")
     return code
